@@ -329,7 +329,10 @@ class MinGenSet():
         # every partition constraint with t parts may require t-1 further elements
         # (cutting [0, total] at every number and at every prefix sum of every partition always gives a generating set)
         max_k = len(self.initial_numbers) + 1 + sum(len(c) - 1 for c in (self.partition_constraints or []) if len(c) > 0)
-        for k in range(self.lowerbound, max(self.lowerbound+1, max_k + 1)):
+        # a generating set sums to `total` and thus has at least one element: a lower bound below 1 is valid, but the
+        # empty model of k = 0 is reported as "model empty" by the solver, which is not a proof of infeasibility
+        first_k = max(1, self.lowerbound)
+        for k in range(first_k, max(first_k + 1, max_k + 1)):
             self._create_solver(k=k)
             self.solver.optimize()
 
